@@ -152,8 +152,30 @@ def instance_of(rng, spec, cls):
     return ['group', [cls, [[U['Value']]] if cls != U['BEG'] else [[U['KbdInt']]]]]
 
 
-def gen_cases(rng, tier):
+# NOTE nested tuples - ((),), ((ValueError,), KeyError) - are no exception specification: `except` (unlike isinstance) refuses a
+# tuple inside a tuple with TypeError on CPython 3, so the only spec that lists nothing is the empty tuple itself.
+
+
+def gen_empty_spec_cases(rng, tier):
+    """`exceptions` that lists NOTHING - the empty tuple (a computed tuple of retryable classes that came out empty): every
+    exception is foreign, so exactly one invocation.  Exhaustive over sequences of length <= 4 of {return, Exception, ValueError,
+    a group, KeyboardInterrupt}, twice; attempts drawn."""
     cases = []
+    att_range = list(range(-1, 7)) if tier == 'quick' else list(range(-2, 10))
+    for _ in range(2):
+        def rep(i):
+            return [['ret'], ['raise', U['Exc']], ['raise', U['Value']], None, ['raise', U['KbdInt']]][i] or gen_group(rng, [], 'foreign')
+        for n in range(0, 5):
+            for seq in itertools.product(range(5), repeat=n):
+                if n >= 3 and rng.random() > (0.25 if tier == 'quick' else 1.0):
+                    continue
+                cases.append({'attempts': rng.choice(att_range + [2, 3, 5]), 'spec': [], 'single': False,
+                              'outs': [rep(i) for i in seq], 'tail': rep(rng.choice([0, 0, 1, 2, 3])), 'mode': rng.choice(['func', 'deco'])})
+    return cases
+
+
+def gen_cases(rng, tier):
+    cases = gen_empty_spec_cases(rng, tier)
     outcomes_pool = [['ret']] + [['raise', U[k]] for k in ('Value', 'Key', 'Index', 'Lookup', 'User', 'UserSub', 'UserSubSub',
                                                             'User2', 'Exc', 'KbdInt', 'Base')]
     # exhaustive small scope: every sequence of length <= L over 5 outcome kinds chosen per spec
@@ -300,16 +322,17 @@ def seq_stream(ck, tier, replay):
     else:
         seqs = []
         for _ in range(150 if tier == 'quick' else 1500):
-            names, single = ck.rng.choice(SPECS)
+            names, single = ck.rng.choice(SPECS + [([], False)])
             spec = [U[n] for n in names]
             calls = []
             for _ in range(ck.rng.choice([2, 3, 4, 6])):
                 ln = ck.rng.choice([0, 0, 1, 2, 3, 5])
                 inst = lambda cls: instance_of(ck.rng, spec, cls)
-                outs = [ck.rng.choice([inst(s) for s in spec] + [inst(spec[0] + [1])]) for _ in range(ln)]
+                outs = [ck.rng.choice([inst(s) for s in spec] + [inst(spec[0] + [1])] if spec else [['raise', U['Value']], ['raise', U['Exc']]])
+                        for _ in range(ln)]
                 if ck.rng.random() < 0.25:
                     outs = [gen_group(ck.rng, spec, ck.rng.choice(['listed', 'mixed', 'foreign'])) if ck.rng.random() < 0.4 else o for o in outs]
-                tail = ck.rng.choice([['ret'], ['ret'], ['ret'], inst(spec[0]), ['raise', [0, 30]]])
+                tail = ck.rng.choice([['ret'], ['ret'], ['ret'], inst(spec[0]) if spec else ['raise', U['Key']], ['raise', [0, 30]]])
                 calls.append({'outs': outs, 'tail': tail})
             seqs.append({'mode': 'deco_seq', 'attempts': ck.rng.choice([1, 2, 3, 3, 4, 5, 8]), 'spec': spec, 'single': single, 'calls': calls})
         seqs.sort(key=lambda q: len(json.dumps(q)))      # the first failing sequence reported is a small one
@@ -321,7 +344,7 @@ def seq_stream(ck, tier, replay):
     for (si, ci), m in zip(flat, model):
         r = impl[si]
         i = None if r is None or 'error' in r else r['calls'][ci] if ci < len(r['calls']) else None
-        ck.note_case('seq-%s' % json.dumps([seqs[si]['attempts'], seqs[si]['spec'], seqs[si]['calls'][:ci + 1]]), nontrivial=ci >= 1)
+        ck.note_case('seq-%s' % json.dumps([seqs[si]['attempts'], seqs[si]['spec'], seqs[si].get('pack'), seqs[si]['calls'][:ci + 1]]), nontrivial=ci >= 1)
         corr, prop, what = judge(sub(si, ci), i if i is not None else r, m)
         if not class_map_ok(sub(si, ci), i):
             ck.glue_bad.append({'seq': seqs[si], 'call': ci, 'impl': i})
@@ -355,7 +378,7 @@ def run(tier, seed, replay=None):
         kinds = classify(c)
         for k in set(kinds):
             hist[k] = hist.get(k, 0) + 1
-        key = json.dumps([c['attempts'], c['spec'], c['outs'], c['tail'], c['mode']])
+        key = json.dumps([c['attempts'], c['spec'], c['outs'], c['tail'], c['mode'], c.get('pack')])
         ck.note_case(key, nontrivial=(len(c['outs']) >= 1 and c['attempts'] >= 2))
         corr, prop, what = judge(c, i, m)
         if not class_map_ok(c, i):
@@ -378,6 +401,7 @@ def run(tier, seed, replay=None):
     ck.oblige('correspondence:retry', 'correspondence', not disagreements,
               json.dumps(disagreements[0])[:900] if disagreements else f'{ck.traces_validated} traces agree')
     if cases:
+        ck.coverage['exception_specs'] = {'empty tuple': sum(1 for c in cases if not c['spec']), 'non-empty': sum(1 for c in cases if c['spec'])}
         ck.coverage.update({'outcome_kind_histogram': hist, 'attempts_range': [min(c['attempts'] for c in cases), max(c['attempts'] for c in cases)],
                             'max_sequence_length': max(len(c['outs']) for c in cases), 'disagreements': len(disagreements)})
     ck.samples = [{'case': c, 'impl': i, 'model': m} for c, i, m in list(zip(cases, impl, model))[:3] + list(zip(cases, impl, model))[-3:]]
@@ -388,6 +412,7 @@ def run(tier, seed, replay=None):
         rule='exhaustive (sampled above length 2) outcome sequences over {return, listed, subclass of listed, foreign, BaseException} '
              'x attempts x exception specs x {retry_func, @retry}; the same over exception GROUPS (own class listed / foreign x leaves listed / mixed / '
              'foreign / not Exceptions, nested, ExceptionGroup / BaseExceptionGroup / user subclasses, specs that list a group class), exhaustive to length 3; '
+             'plus the spec that lists NOTHING (exceptions=(): every exception foreign, exhaustive to length 2, sampled to 4); '
              'plus random longer sequences; distinct = (attempts, spec, outcomes, tail, mode); '
              'non-trivial = at least one scripted outcome and attempts >= 2',
         checker_cmd='make -C coq Props/C15.vo && coqc -Q coq PV coq/Props/C15.v (Print Assumptions under every theorem)',
